@@ -68,6 +68,9 @@ structure Fix where
   minuitSet : Bool
   /-- `except_result` removes the registered bounds -/
   exceptRm : Bool
+  /-- `fit_scipy` ends with `standard_complex(bounded=bounds_dict)` instead of `standard_complex()`
+  (tree after `fix_C08_standard_complex_bounded.diff`) -/
+  stdBounded : Bool := false
 deriving DecidableEq, Repr
 
 structure FitResult (V : Type) where
@@ -95,21 +98,22 @@ def exceptResult (A : Arith V) (fx : Fix) (s : State V) (o : Oracle V) : State V
   let s1 := if fx.exceptRm then ({ s with bnd := [] } : State V) else s
   (s1, .ok ⟨getAllDic A s1 false, o.fval, s.trainable.length, false⟩)
 
-/-- tail of `fit_scipy`: `standard_complex`, `get_params`, `FitResult` -/
-def finish (A : Arith V) (cfg : Cfg) (stdc : Bool) (s : State V) (o : Oracle V) : State V × Outcome V :=
-  let s1 := if stdc then (standardComplex A cfg s).1 else s
+/-- tail of `fit_scipy`: `standard_complex(bounded)`, `get_params`, `FitResult` -/
+def finish (A : Arith V) (cfg : Cfg) (stdc : Bool) (s : State V) (o : Oracle V) (bounded : List Name) : State V × Outcome V :=
+  let s1 := if stdc then (standardComplex A cfg s bounded).1 else s
   (s1, .ok ⟨getAllDic A s1 false, o.fval, o.x.length, o.success⟩)
 
-/-- the state when the minimiser hands control back: bounds registered (where the branch does so), all its evaluations done -/
+/-- the state when the minimiser hands control back: `breg` registered (where the branch does so), all its evaluations done -/
 def afterEvals (A : Arith V) (cfg : Cfg) (m : Method) (s : State V) (bounds : Dict (Option V × Option V)) (o : Oracle V) : State V :=
   match m with
   | .quasi | .newton => run A cfg (setBound s bounds) (evalOps o)
   | .lbfgsb | .minuit => run A cfg s (evalOps o)
   | .unknown => s
 
-/-- `fit_scipy(fcn, method, bounds_dict, standard_complex=stdc)` -/
-def fit (A : Arith V) (cfg : Cfg) (fx : Fix) (m : Method) (stdc : Bool) (s : State V)
-    (bounds : Dict (Option V × Option V)) (o : Oracle V) : State V × Outcome V :=
+/-- the body of `fit_scipy` after its first statements: `bounds` is the dict that `set_bound` stores (its keys already
+passed through `bound_name` where the tree does that), `bounded` what is handed to `standard_complex` -/
+def fitCore (A : Arith V) (cfg : Cfg) (fx : Fix) (m : Method) (stdc : Bool) (s : State V)
+    (bounds : Dict (Option V × Option V)) (bounded : List Name) (o : Oracle V) : State V × Outcome V :=
   let s1 := afterEvals A cfg m s bounds o
   match m with
   | .quasi =>
@@ -120,23 +124,42 @@ def fit (A : Arith V) (cfg : Cfg) (fx : Fix) (m : Method) (stdc : Bool) (s : Sta
     if !o.hasHessInv && !fx.hessOpt then (s2, .raised "AttributeError") else
     -- fcn.vm.remove_bound()
     let s3 := (step A cfg s2 .removeBound).1
-    finish A cfg stdc s3 o
+    finish A cfg stdc s3 o bounded
   | .lbfgsb =>
     if o.abort then exceptResult A fx s1 o else
     -- fcn.vm.set_var(xn)
     if !fx.lbfgsb then (s1, .raised "AttributeError") else
     let s2 := (step A cfg s1 (.setAllList o.x false)).1
-    finish A cfg stdc s2 o
+    finish A cfg stdc s2 o bounded
   | .newton =>
     let s2 := (step A cfg s1 (.setTransVar o.x)).1
     let s3 := if fx.newtonRm then (step A cfg s2 .removeBound).1 else s2
     -- params = fcn.get_params(); FitResult(...)   (no standard_complex in fit_newton_cg)
-    finish A cfg false s3 o
+    finish A cfg false s3 o bounded
   | .minuit =>
     let s2 := if fx.minuitSet then (step A cfg s1 (.setAllList o.x false)).1 else s1
     -- FitResult(dict(zip(var_names, m.values)), fcn, m.fval, ndf=len(var_names), success=m.valid)
     (s2, .ok ⟨s.trainable.zip o.x, o.fval, s.trainable.length, o.success⟩)
   | .unknown => (s, .raised "Exception")
+
+/-- the `bounds_dict` the body of `fit_scipy` works with: `{vm.bound_name(k): v}` after
+`fix_C08_set_bound_free_name.diff` (L-BFGS-B `bnds`, Minuit limits, `standard_complex(bounded=…)`, `set_bound`), the
+argument itself on the unchanged tree -/
+def fitBounds (cfg : Cfg) (s : State V) (bounds : Dict (Option V × Option V)) : Dict (Option V × Option V) :=
+  routeBounds cfg s bounds
+
+/-- what `vm.set_bound(bounds_dict)` stores: `set_bound` passes the keys through `bound_name` itself (again) -/
+def regBounds (cfg : Cfg) (s : State V) (bounds : Dict (Option V × Option V)) : Dict (Option V × Option V) :=
+  routeBounds cfg s (fitBounds cfg s bounds)
+
+/-- the names `fit_scipy` hands to `standard_complex` -/
+def stdBoundedNames (cfg : Cfg) (fx : Fix) (s : State V) (bounds : Dict (Option V × Option V)) : List Name :=
+  if fx.stdBounded then dkeys (fitBounds cfg s bounds) else []
+
+/-- `fit_scipy(fcn, method, bounds_dict, standard_complex=stdc)` -/
+def fit (A : Arith V) (cfg : Cfg) (fx : Fix) (m : Method) (stdc : Bool) (s : State V)
+    (bounds : Dict (Option V × Option V)) (o : Oracle V) : State V × Outcome V :=
+  fitCore A cfg fx m stdc s (regBounds cfg s bounds) (stdBoundedNames cfg fx s bounds) o
 
 /-- what the answer `x` means for the i-th free parameter while `bnd` is registered: `x2y` for a bounded name -/
 def yOf (A : Arith V) (bnd : Dict (Option V × Option V)) (n : Name) (x : V) : V :=
